@@ -7,8 +7,8 @@ ID = "C04"
 RULE = (
     "R2/R3 graphs with 2..30 vertices: random tree/chain + loop closures + parallel edges + reversed edges + point-to-point landmark edges with "
     "offsets, SPD information with cross terms (cond <= 1e4), arbitrary (inconsistent) measurements, fixed subset >= 1 via flags or "
-    "fix_first_pose, initial guess displaced by up to 1e6; optimize() with defaults or random tol in [1e-10,1e-2], max_iter >= 3. Oracle: independent "
-    "closed form - Cholesky-whitened residual rows over the free coordinates solved with numpy.linalg.lstsq. Non-trivial = loop, multi-edge, "
+    "fix_first_pose, initial guess displaced by up to 1e6 (several free vertices may start from one shared pose object); optimize() with defaults or random tol in [1e-10,1e-2], max_iter >= 3. Oracle: independent "
+    "closed form - Cholesky-whitened residual rows over the free coordinates solved with numpy.linalg.lstsq; then (history) a second problem on the same Graph object - one more vertex fixed at a new place, possibly one released, new initial guesses - against its own closed form. Non-trivial = loop, multi-edge, "
     "landmark edge with non-zero offset, >= 2 fixed, or initial guess > 1e3 away."
 )
 BUDGET = {"quick": 16 * 1500, "thorough": 16 * 10000}
@@ -43,6 +43,27 @@ def strategy_(g):
         case["opt"] = {"tol": 10.0 ** g.rnd.uniform(-10, -2), "max_iter": g.integer(3, 12)}
     else:
         case["opt"] = None
+    rnd = g.rnd
+    nv = len(case["verts"])
+    free = [i for i, v in enumerate(case["verts"]) if not (v["fixed"] or (ff and i == 0))]
+    # several free vertices may start from ONE pose object (all unknowns initialised from the same `origin` object)
+    case["alias"] = []
+    if len(free) >= 2 and g.choice([False, False, True]):
+        j = rnd.choice(free)
+        for i in rnd.sample([x for x in free if x != j], min(len(free) - 1, rnd.randint(1, 3))):
+            case["verts"][i]["p"]["v"] = list(case["verts"][j]["p"]["v"])
+            case["alias"].append([i, j])
+    # history: a second, different problem solved on the SAME Graph object (a vertex becomes fixed at a new place,
+    # possibly another one is released, the free vertices get new initial guesses)
+    case["stage2"] = None
+    if len(free) >= 2 and g.choice([False, True]):
+        k = rnd.choice(free)
+        d = R.PDIM[case["base"]]
+        release = None
+        fixed_now = [i for i in range(nv) if i not in free]
+        if len(fixed_now) >= 1 and rnd.random() < 0.5:
+            release = rnd.choice(fixed_now)
+        case["stage2"] = {"fix": k, "fix_at": [t + rnd.uniform(-2, 2) for t in case["verts"][k]["truth"][:d]], "release": release, "jitter": [[rnd.uniform(-P - 1, P + 1) for _ in range(d)] for _ in range(nv)]}
     return case
 
 
@@ -131,6 +152,10 @@ def check(case, ctx):
         ctx.event("discarded:rank-deficient")
         return
     g = GG.build(case)
+    for i, j in case.get("alias", []):
+        g._vertices[i].pose = g._vertices[j].pose  # one pose object, several vertices
+    if case.get("alias"):
+        ctx.event("free-vertices-share-one-pose-object")
     kw = dict(fix_first_pose=ff, verbose=False)
     if case["opt"]:
         kw.update(tol=case["opt"]["tol"], max_iter=case["opt"]["max_iter"])
@@ -155,3 +180,42 @@ def check(case, ctx):
     if not GC.rel_close(float(ret.final_chi2), chi_star, 1e-8, floor):
         return ctx.fail("final-chi2-not-minimal", "final_chi2=%r but chi2 at the closed-form optimum=%r" % (ret.final_chi2, chi_star))
     ctx.deviation("final chi2 vs optimum", abs(float(ret.final_chi2) - chi_star), 1e-8 * max(abs(chi_star), abs(float(ret.final_chi2))) + floor)
+
+    # ---- history: a second problem on the same Graph object must again be solved to ITS closed-form optimum
+    st = case.get("stage2")
+    if st:
+        import copy
+
+        c2 = copy.deepcopy(case)
+        for i, v in enumerate(g._vertices):
+            c2["verts"][i]["p"]["v"] = gs.stored(v.pose)
+            c2["verts"][i]["fixed"] = bool(v.fixed)
+        c2["verts"][st["fix"]]["fixed"] = True
+        c2["verts"][st["fix"]]["p"]["v"] = list(st["fix_at"])
+        if st["release"] is not None and st["release"] != st["fix"]:
+            c2["verts"][st["release"]]["fixed"] = False
+        for i, v in enumerate(c2["verts"]):
+            if not v["fixed"]:
+                v["p"]["v"] = [a + b for a, b in zip(v["p"]["v"], st["jitter"][i])]
+        fixed2 = [bool(v["fixed"]) for v in c2["verts"]]
+        if not any(fixed2):
+            return
+        for i, v in enumerate(g._vertices):
+            v.fixed = fixed2[i]
+            v.pose = gs.mk_pose(c2["verts"][i]["p"])
+        xs2, chi2_star, cond2 = closed_form(c2, fixed2)
+        if xs2 is None:
+            ctx.event("stage2:rank-deficient-skipped")
+            return
+        ctx.event("stage2")
+        ret2, _ = GC.optimize_quiet(g, fix_first_pose=False, verbose=False)
+        if not GC.all_finite(g):
+            return ctx.fail("nonfinite-poses", "second problem on the same Graph object: poses not finite")
+        xinf2 = max([1.0] + [abs(t) for x in xs2 for t in x])
+        tol2 = 1e-7 * (1 + xinf2) * max(1.0, cond2 * cond2 * 1e-6)
+        for i, (v, x) in enumerate(zip(g._vertices, xs2)):
+            dlt = float(np.abs(np.array(gs.stored(v.pose)) - np.array(x)).max())
+            if not (dlt <= tol2):
+                return ctx.fail("not-the-wls-optimum:second-solve-on-same-graph", "after changing the fixed set / initial guesses on the same Graph object, vertex #%d is %.3e from the closed-form optimum (tol %.3e)" % (i, dlt, tol2))
+        if not GC.rel_close(float(ret2.final_chi2), chi2_star, 1e-8, 1e-9 * maxinfo * (1 + max(xinf2, S_)) ** 2):
+            return ctx.fail("final-chi2-not-minimal", "second solve: final_chi2=%r but chi2 at the closed-form optimum=%r" % (ret2.final_chi2, chi2_star))
